@@ -151,6 +151,8 @@ def c04_jobs(tier):
     for ki in range(3):
         for n in range(0, (64 if q else 96) + 1):
             jobs.append(job(ENCR, "HDecryptArbitrary", [ki, n], solver="z3-new"))
+        for n in ((1568,) if q else (1040, 1568, 4112)):
+            jobs.append(job(ENCR, "HDecryptArbitrary", [ki, n], solver="z3-new", wall_ms=600000))
     # (4) unprotection entry point.  family 1: single payload spanning the datagram, decrypted
     # plaintext chain cut inside decryptMsg; family 0: arbitrary chains, small
     cut_dd = [c + "|" + MOD + ".decryptMsg" for c in ALL_CUTS]
@@ -196,6 +198,10 @@ def c05_jobs(tier):
         jobs.append(job(MSG, "HDecodeLiberal", [0, 1, 1, a, b, 0]))
     jobs.append(job(MSG, "HStrictParseOfEncode", [0, 0]))
     jobs.append(job(MSG, "HDecodeLiberal", [0, 1, 0, 0]))
+    # chains of several hundred / several thousand octets (three payloads with 600 or 2000 data octets each)
+    for big in ((1600,) if tier == "quick" else (1600, 3000)):
+        jobs.append(job(MSG, "HStrictParseOfEncode", [big, 40, 37, 41, 0], wall_ms=600000))
+        jobs.append(job(MSG, "HDecodeLiberal", [big, 1, 0, 34, 43, 39, 0], wall_ms=600000))
     for m in (0, 1, 2, 3, 254):
         jobs.append(job(EAP, "HEapRefLemma", [m, 0, t - 1]))
     for m in ([1, 4, 8, 16, 32, 64, 127] if tier == "quick" else range(128)):
@@ -247,6 +253,10 @@ def c20_jobs(tier):
             jobs.append(job(ROOT, "HProtectFrame", [s, role, 0, 33, 48, 0]))
     for v in (0, 1):
         jobs.append(job(MSG, "HEncodeSharedContainers", [v]))
+    # several hundred octets per value (allocation strategies that change with the size)
+    for k in (47, 37, 41, 43):
+        jobs.append(job(MSG, "HDecodeOwnsData", [1300, k, 0], wall_ms=600000))
+    jobs.append(job(MSG, "HEncodePure", [1600, 40, 37, 0], wall_ms=600000))
     for meth, mask in ((1, 0), (2, 0), (3, 0), (254, 0), (50, 0), (50, 1 | 4 | 32)):
         jobs.append(job(EAP, "HEapEncodePureAnyCode", [meth, mask]))
     # a decoded EAP-AKA' packet extended through the API: same octets under every map order
@@ -300,6 +310,11 @@ def c06_jobs(tier):
             for sh in shapes:
                 jobs.append(job(ROOT, "HSKLayout", [s, role, 0] + sh + [0]))
                 jobs.append(job(ROOT, "HAcceptReference", [s, role, (s + role) % 2, 0] + sh + [0]))
+    # inner chains of several hundred octets (two payloads with 300 / 1000 data octets each)
+    for i, s in enumerate((1, 5, 6) if q else range(9)):
+        big = 1300 if i % 2 == 0 or q else 2000
+        jobs.append(job(ROOT, "HSKLayout", [s, i % 2, big, 40, 37, 0], wall_ms=600000))
+        jobs.append(job(ROOT, "HAcceptReference", [s, (i + 1) % 2, i % 2, big, 43, 39, 0], wall_ms=600000))
     return jobs
 
 
@@ -317,8 +332,13 @@ def c10_jobs(tier):
                 jobs.append(job(ENCR, "HRandFault", [ki, n, k]))
         for l in range(0, 65):
             jobs.append(job(ENCR, "HWrongKey", [ki, l]))
+        for kj in range(3):
+            jobs.append(job(ENCR, "HKeyIsolation", [ki, kj]))
         for n in range(0, (96 if q else 128) + 1):
             jobs.append(job(ENCR, "HDecryptArbitrary", [ki, n]))
+        for n in ((1552, 1568, 4112) if q else (512, 1040, 1552, 1568, 1584, 4096, 4112)):
+            jobs.append(job(ENCR, "HDecryptArbitrary", [ki, n], wall_ms=600000))
+            jobs.append(job(ENCR, "HEncryptStructure", [ki, n - 17], wall_ms=600000))
     return jobs
 
 
@@ -341,7 +361,7 @@ def c07_jobs(tier):
         jobs.append(job(SEC, "HIKESAKeysRepeated", [e, i, p, lens[k % len(lens)], lens[(k + 3) % len(lens)], 16, 32]))
     # long nonces / secrets (Ni|Nr may be 512 octets): one combination per PRF
     for p in range(3):
-        for ln, ls in ((257, 16), (512, 256), (300, 512)):
+        for ln, ls in ((257, 16), (512, 256), (300, 512), (63, 20), (64, 64), (65, 128), (240, 16), (480, 32), (496, 16)):
             jobs.append(job(SEC, "HIKESAKeys", [p, (p + 1) % 3, p, ln, ls]))
     for d in range(2):
         for k in range(9 if q else 27):
@@ -365,7 +385,7 @@ def c08_jobs(tier):
                         jobs.append(job(SEC, "HChildKeys", [p, e, i, ln, j]))
     for p in range(3):
         # long nonces (Ni|Nr up to 512 octets) and Child SA key objects built from a negotiated proposal
-        for ln in (256, 300, 512):
+        for ln in (256, 300, 512, 63, 64, 65, 230, 240, 255):
             jobs.append(job(SEC, "HChildKeys", [p, (p + 1) % 3, (p + 2) % 3, ln, 3]))
         for e in range(3):
             for i in range(3):
@@ -390,6 +410,9 @@ def c16_jobs(tier):
     for w in range(3):
         for l in (1, 16):
             jobs.append(job(EAP, "HPrfPrimeEmpty", [w, l]))
+    # two calls in a row, also with inputs whose concatenations could coincide
+    for a in ((16, 16, 24, 16, 24, 16), (16, 16, 8, 16, 16, 8), (32, 32, 0, 16, 16, 40), (16, 24, 16, 16, 16, 32)):
+        jobs.append(job(EAP, "HPrfPrimeTwice", list(a)))
     return jobs
 
 
@@ -463,6 +486,10 @@ def c17_jobs(tier):
         for j in (3, 64):
             jobs.append(job(SEC, "HChildKeys", [p, 1, p, 16, j]))
         jobs.append(job(SEC, "HChildKeys", [p, 2, (p + 1) % 4, 16, 2003]))
+    # concrete long histories (the property's sequences of up to 64 operations)
+    for i, s_ in enumerate(range(9) if not q else (0, 4, 8)):
+        jobs.append(job(ROOT, "HReuseSequence", [s_, i % 2, 64 if i % 3 == 0 or not q else 34, 0], wall_ms=600000))
+        jobs.append(job(ROOT, "HReuseSequence", [s_, (i + 1) % 2, 40, 40, 0], wall_ms=600000))
     return jobs
 
 
@@ -487,6 +514,11 @@ def c12_jobs(tier):
     for i in range(15):
         jobs.append(job(MSG, "HCanonicalIdentity", [0, PAYLOAD_KINDS[i], PAYLOAD_KINDS[(i + 6) % 15], 0]))
     jobs.append(job(MSG, "HCanonicalIdentity", [0, 0]))
+    for n in ((1, 3) if q else (1, 2, 3, 4)):
+        jobs.append(job(MSG, "HStableForeignSA", [n], wall_ms=600000))
+    for big in ((1600,) if q else (1600, 3000)):
+        jobs.append(job(MSG, "HCanonicalIdentity", [big, 34, 40, 43, 0], wall_ms=600000))
+        jobs.append(job(MSG, "HStableLiberal", [big, 0, 37, 41, 39, 0], wall_ms=600000))
     for k in PAYLOAD_KINDS:
         for tt in sa_tiers(t, k):
             for perm in ((0, 1, 2) if k == 33 else (0,)):
